@@ -160,6 +160,7 @@ func cmdRun(args []string) int {
 	type cexOut struct {
 		explore.Counterexample
 		reproduced bool
+		native     bool
 	}
 	var cexs []cexOut
 	var knownList []string
@@ -188,14 +189,15 @@ func cmdRun(args []string) int {
 			}
 		}
 		nw := len(vecs)
-		if !*noNative {
+		if !*noNative && native {
 			for _, c := range r.st.Cex {
 				vecs = append(vecs, explore.NativeVector{Harness: c.Harness, Vars: c.Vars, Params: c.Params, Known: knownList})
 			}
 		}
-		if len(vecs) == 0 {
+		if len(vecs) == 0 || !native {
 			for _, c := range r.st.Cex {
-				cexs = append(cexs, cexOut{c, false})
+				c.Native = "not replayed natively (engine-only harness): re-executed concretely by the engine on the real SSA"
+				cexs = append(cexs, cexOut{c, false, false})
 			}
 			continue
 		}
@@ -220,7 +222,7 @@ func cmdRun(args []string) int {
 			o := outs[nw+k]
 			rep := (c.Status == "violation" && o.Status == "violation" && o.Label == c.Label) || (c.Status == "panic-escape" && o.Status == "panic")
 			c.Native = o.Status + " " + o.Label + " " + o.Msg
-			cexs = append(cexs, cexOut{c, rep})
+			cexs = append(cexs, cexOut{c, rep, true})
 		}
 	}
 
@@ -234,8 +236,7 @@ func cmdRun(args []string) int {
 		path := filepath.Join(outDir, fmt.Sprintf("%s-%d.json", short, k))
 		b, _ := json.MarshalIndent(c.Counterexample, "", " ")
 		os.WriteFile(path, b, 0644)
-		native := results[0].def.Native == nil || *results[0].def.Native
-		if c.reproduced || *noNative || !native {
+		if c.reproduced || *noNative || !c.native {
 			violations++
 			fmt.Printf("VIOLATION property=%s replay=%s\n", *prop, path)
 			fmt.Printf("  %s: %s %s vars=%v native=%q\n", short, c.Label, c.Msg, c.Vars, c.Native)
